@@ -80,6 +80,17 @@ func c13program(r *rng.R, tag string, n int, password bool) c13prog {
 				db = d
 			}
 		case 2:
+			if r.Chance(1, 3) {
+				// a SELECT with arguments behind the index: whether it is accepted or refused, the database
+				// follows the reply (a refused command changes nothing)
+				d := rng.Pick(r, []int{0, 1, 2, 3, 7, 15})
+				p.Reqs = append(p.Reqs, resp.Cmd("SELECT", fmt.Sprint(d), rng.Pick(r, []string{"junk", "0", ""})))
+				p.Steps = append(p.Steps, c13step{Kind: "select-int", N: d})
+				if authed {
+					db = d
+				}
+				break
+			}
 			p.Reqs = append(p.Reqs, resp.Cmd("SELECT", rng.Pick(r, []string{"abc", "", "1.5", "99999999999999999999"})))
 			p.Steps = append(p.Steps, c13step{Kind: "select-bad"})
 		case 3:
@@ -390,7 +401,7 @@ func init() {
 	run.Register(&run.Prop{
 		ID: "C13", Level: "exploration",
 		Rule: func(tier string) string {
-			return "case = 2..8 connections served by one server through hook H1 (children are built with the Go race detector), each running its own program of SELECT n (small, negative and huge indices; ill-formed tokens), AUTH (right and wrong; two fifths of the cases require a password - half of them only through the configuration, the way CONFIG SET requirepass or SetRequirePass on a running server leave it, so that the framework registers the authenticator when the first AUTH arrives -, another fifth require none but have an application authenticator that refuses wrong credentials with (false, nil) rather than an error) and single-call data commands whose keys carry the issuing connection's tag. Schedules: (systematic) two connections in lock-step under ALL 70 interleavings of two 4-request programs; (free-running) every connection on its own goroutine with seeded Gosched yields inside the handler double. Monitor: every handler call is attributed to the issuing connection by its key tag and must show conn.Database(), IsAuthrized(), conn.UserName()/Password() (the credentials of the connection's last successful AUTH), a per-connection counter kept in the connection's sync.Map and the connection UUID equal to that connection's own command history, where a SELECT or AUTH counts iff its reply was +OK (programs are sequential per connection, so the expectation is exact under any interleaving); UUIDs of different connections differ. Evidence reports distinct observed interleavings (hash of the global call order)"
+			return "case = 2..8 connections served by one server through hook H1 (children are built with the Go race detector), each running its own program of SELECT n (small, negative and huge indices; ill-formed tokens; surplus arguments), AUTH (right and wrong; two fifths of the cases require a password - half of them only through the configuration, the way CONFIG SET requirepass or SetRequirePass on a running server leave it, so that the framework registers the authenticator when the first AUTH arrives -, another fifth require none but have an application authenticator that refuses wrong credentials with (false, nil) rather than an error) and single-call data commands whose keys carry the issuing connection's tag. Schedules: (systematic) two connections in lock-step under ALL 70 interleavings of two 4-request programs; (free-running) every connection on its own goroutine with seeded Gosched yields inside the handler double. Monitor: every handler call is attributed to the issuing connection by its key tag and must show conn.Database(), IsAuthrized(), conn.UserName()/Password() (the credentials of the connection's last successful AUTH), a per-connection counter kept in the connection's sync.Map and the connection UUID equal to that connection's own command history, where a SELECT or AUTH counts iff its reply was +OK (programs are sequential per connection, so the expectation is exact under any interleaving); UUIDs of different connections differ. Evidence reports distinct observed interleavings (hash of the global call order)"
 		},
 		Assumptions: []string{"the per-connection user data is observed through the sync.Map embedded in redis.Conn"},
 		Setup: func(tier string, seed uint64) int {
